@@ -37,7 +37,9 @@ def gen_params(rng, idx):
         # three data points per invocation, no extra criteria
         # (non-ASCII benchmark names: they are written as they are into the measurement lines and the
         # `#!` line, so a cut can fall between the bytes of a character)
-        {'benchmarks': [u'B\u00e97', u'C\u65e5'], 'old': [u'C\u65e5'], 'invocations': 2, 'iterations': 3, 'crits': 0},
+        {'benchmarks': [u'B\u00e97', u'C\u65e5'], 'old': [u'C\u65e5'], 'invocations': 2, 'iterations': 3, 'crits': 0,
+         # characters that only str.splitlines treats as line breaks, written as they are into the lines
+         'text_fields': {'variable_values': [u'a\u2028b\x0cc'], 'input_sizes': [u'1\x0b2\x85\x1c']}},
         # a profile data file: one line per invocation, run id in the column before the JSON column
         {'benchmarks': ['B', 'C'], 'old': ['B'], 'invocations': 2, 'iterations': 1, 'crits': 0, 'profile': True},
     ]
@@ -74,7 +76,8 @@ class Base(object):
         shutil.rmtree(wd, ignore_errors=True)
         self.profile = bool(params.get('profile'))
         self.scn = dd.Scenario(wd, params['benchmarks'], params['invocations'], params['iterations'], params['crits'],
-                               profile=self.profile, unicode_text=bool(params.get('unicode')))
+                               profile=self.profile, unicode_text=bool(params.get('unicode')),
+                               text_fields=params.get('text_fields'))
         # the file is handled as bytes (latin-1: one character per byte), so that a cut can fall
         # between the bytes of a multi-byte character, like a power loss can
         self.scn.encoding = 'latin-1'
@@ -480,6 +483,11 @@ def batched(model_fn, ops, size=300):
     return out
 
 
+def _raw(t):
+    """a configured text as its bytes appear in the file (which is handled as latin-1)"""
+    return t.encode('utf-8').decode('latin-1')
+
+
 def writer_ops(base, o, ses, ans, after):
     """two model ops for a session that appended: the writer model's records for the data points
     the harness printed (numbered by the model's plan), and the classification of the appended text"""
@@ -513,9 +521,11 @@ def writer_ops(base, o, ses, ans, after):
     alines = app.split('\n')
     bp, rp = dd.payload_tables(dd.parse_file(after), lambda o: names.index(o['name']) if o['name'] in names else 99,
                                lambda o: names.index(o['cmdline'].split()[-1]) if o['cmdline'].split()[-1] in names else 99)
+    tf = base.params.get('text_fields') or {}
     op3 = {'op': 'c09.render', 'benches': ans['benches'], 'runs': ans['runs'], 'empty': before == '',
            'cmd': alines[0][2:], 'hdr': dd.HDR, 'comments': alines[1:4], 'dps': dps, 'profile': base.profile,
-           'cols': [[i, [b.encode('utf-8').decode('latin-1'), 'E', 'S', '', '1', '', '', '', '']]
+           'cols': [[i, [_raw(b), 'E', 'S', '', '1', _raw((tf.get('input_sizes') or [''])[0]),
+                         _raw((tf.get('variable_values') or [''])[0]), '', '']]
                     for i, b in enumerate(names)],
            'units': [['total', 'ms']] + [['c%d' % c, 'kb'] for c in range(3)],
            'bench_json': [[k, pj] for (pj, k) in bp], 'run_json': [[k, bid, pj] for (pj, k, bid) in rp]}
